@@ -1,0 +1,108 @@
+//go:build verif
+
+// Contracts for contract-based deductive verification (checked by /verif/govc).
+// This file is comment-only and compiled only with the build tag "verif".
+
+package main
+
+// ---- strings.CutSuffix (library, uninterpreted): the facts the proofs rely on ------------------
+// ASSUMPTION (trusted, true of the Go standard library): CutSuffix(s, x) reports found exactly when
+// s = before + x, and then returns that before.
+//@ pure cutFound(s string, x string) bool = strings.CutSuffix(s, x).1
+//@ pure cutBefore(s string, x string) string = strings.CutSuffix(s, x).0
+//@ pure cutSuffixOK() bool = (forall s string, x string :: cutFound(s + x, x)) && (forall s string, x string :: cutFound(s, x) ==> s == cutBefore(s, x) + x)
+
+// Annotation key forms for container name n.
+//@ pure keyC(p string, n string) string = p + (annotationSuffix + "/" + n)
+//@ pure keyP(p string) string = p + annotationSuffix
+// ASSUMPTION on inputs (DESIGN C18 "not covered"): the container name is such that no key parses under both
+// suffixes (true for every DNS-label container name: it cannot contain ".memory-qos.nri.io").
+//@ pure nameOK(n string) bool = forall k string :: !(cutFound(k, annotationSuffix + "/" + n) && cutFound(k, annotationSuffix))
+
+// The effective value of annotation prefix p for container n in annotation map ann.
+//@ pure effIn(ann map[string]string, p string, n string) bool = keyC(p, n) in ann || keyP(p) in ann
+//@ pure effVal(ann map[string]string, p string, n string) string = keyC(p, n) in ann ? ann[keyC(p, n)] : ann[keyP(p)]
+
+//@ func associate safety=C14
+//@   requires m != nil
+//@   modifies m[*]
+//@   ensures[C18] (override || !old(key in m)) ==> result && dom(m) == upd(old(dom(m)), key, true) && vals(m) == upd(old(vals(m)), key, value)
+//@   ensures[C18] !(override || !old(key in m)) ==> !result && dom(m) == old(dom(m)) && vals(m) == old(vals(m))
+
+//@ func effectiveAnnotations safety=C14
+//@   requires ctr != nil
+//@   requires cutSuffixOK() && nameOK(ctr.Name)
+//@   modifies nothing
+//@   let ann = pod.GetAnnotations()
+//@   ensures[C18] fresh(result)
+//@   ensures[C18] forall p string :: effIn(ann, p, ctr.Name) ==> p in result && result[p] == effVal(ann, p, ctr.Name)
+//@   ensures[C18] forall p string :: p in result ==> effIn(ann, p, ctr.Name)
+// ($t0 is the local effAnn; the engine resolves the name effAnn to nil at the loop header, so the register is used)
+//@ loop 0 in effectiveAnnotations at "range pod.GetAnnotations()"
+//@   modifies $t0[*]
+//@   invariant[C18] forall k string :: seen(k) ==> k in ann
+//@   invariant[C18] forall p string :: seen(keyC(p, ctr.Name)) ==> p in $t0 && $t0[p] == ann[keyC(p, ctr.Name)]
+//@   invariant[C18] forall p string :: !seen(keyC(p, ctr.Name)) && seen(keyP(p)) ==> p in $t0 && $t0[p] == ann[keyP(p)]
+//@   invariant[C18] forall p string :: p in $t0 ==> seen(keyC(p, ctr.Name)) || seen(keyP(p))
+
+// (the index of an exists is shifted by one so that the solvers' triggers match the loops' rangeindex+1)
+//@ pure inSlice(hs []string, x string) bool = exists j int :: -1 <= j && j + 1 < len(hs) && hs[j + 1] == x
+//@ pure hasClass(cfg *pluginConfig, name string) bool = cfg != nil && exists j int :: -1 <= j && j + 1 < len(cfg.Classes) && cfg.Classes[j + 1].Name == name
+
+//@ func sliceContains safety=C14
+//@   modifies nothing
+//@   ensures[C18] result ==> inSlice(haystack, needle)
+//@   ensures[C18] !result ==> (forall j int :: 0 <= j && j < len(haystack) ==> haystack[j] != needle)
+//@ loop 0 in sliceContains at "range haystack"
+//@   invariant -1 <= rangeindex && rangeindex < len(haystack)
+//@   invariant forall j int :: 0 <= j && j <= rangeindex ==> haystack[j] != needle
+
+// Values derived from the class never replace what is already in unified; a refused request changes nothing.
+// NRI messages: ctr.Linux, ctr.Linux.Resources, ctr.Linux.Resources.Memory are optional sub-messages (may be nil).
+//@ func (*plugin).applyQosClass safety=C14
+//@   requires p != nil && ctr != nil && unified != nil
+//@   modifies unified[*]
+//@   ensures[C14] p.config == nil ==> result != nil
+//@   ensures[C18] result == nil ==> hasClass(p.config, cls)
+//@   ensures[C14,C18] result != nil ==> dom(unified) == old(dom(unified)) && vals(unified) == old(vals(unified))
+//@   ensures[C18] forall k string :: old(k in unified) ==> k in unified && unified[k] == old(unified[k])
+//@   ensures[C18] forall k string :: k in unified && !old(k in unified) ==> k == "memory.high" || k == "memory.swap.max"
+//@   ensures[C18] "memory.swap.max" in unified && !old("memory.swap.max" in unified) ==> unified["memory.swap.max"] == "max"
+//@ loop 0 in (*plugin).applyQosClass at "range p.config.Classes"
+//@   modifies nothing
+//@   invariant -1 <= rangeindex && rangeindex < len(p.config.Classes)
+
+// CreateContainer: every explicitly annotated cgroup parameter q (any effective annotation other than "class")
+// ends up in the adjustment with its effective value (container-specific, else pod-wide), whatever the map
+// iteration order and whether or not a class-derived value for q was computed before or after; nothing else
+// than class-derived memory.high / memory.swap.max is added.
+// A plugin without configuration (p.config == nil) and NRI messages without optional sub-messages are allowed.
+//@ func (*plugin).CreateContainer safety=C14
+//@   requires p != nil && ctr != nil
+//@   requires cutSuffixOK() && nameOK(ctr.Name)
+//@   # the handler changes nothing that existed before the call (plugin state, request messages): a refused request
+//@   # leaves the plugin as it was
+//@   modifies nothing
+//@   let ann = pod.GetAnnotations()
+//@   ensures[C18] err == nil ==> forall q string :: q != "class" && effIn(ann, q, ctr.Name) ==>
+//@        result0 != nil && result0.Linux != nil && result0.Linux.Resources != nil &&
+//@        q in result0.Linux.Resources.Unified && result0.Linux.Resources.Unified[q] == effVal(ann, q, ctr.Name)
+//@   # (c stands for "class": a literal there would be constant-folded with the suffix into a new, unrelated literal)
+//@   ensures[C18] err == nil && result0 != nil ==> forall q string, c string :: c == "class" && q in result0.Linux.Resources.Unified ==>
+//@        (q != c && effIn(ann, q, ctr.Name)) || (effIn(ann, c, ctr.Name) && (q == "memory.high" || q == "memory.swap.max"))
+//@   ensures[C14] err != nil ==> result0 == nil
+//@   # a request is accepted only if every effective annotation is valid, whatever the iteration order: the effective
+//@   # class is configured and every other effective annotation is an allowed unified parameter
+//@   ensures[C18] err == nil ==> forall c string :: c == "class" && effIn(ann, c, ctr.Name) ==> hasClass(p.config, effVal(ann, c, ctr.Name))
+//@   ensures[C18] err == nil ==> forall q string :: q != "class" && effIn(ann, q, ctr.Name) ==> p.config != nil && inSlice(p.config.UnifiedAnnotations, q)
+//@ loop 0 in (*plugin).CreateContainer at "range effectiveAnnotations(pod, ctr)"
+//@   modifies $t7[*]
+//@   invariant[C18] seen("class") ==> hasClass(p.config, $t8["class"])
+//@   invariant[C18] forall q string :: seen(q) && q != "class" ==> p.config != nil && inSlice(p.config.UnifiedAnnotations, q)
+//@   invariant[C18] forall q string :: seen(q) ==> q in $t8
+//@   invariant[C18] forall q string :: seen(q) && q != "class" ==> q in $t7 && $t7[q] == $t8[q]
+//@   invariant[C18] forall q string :: q in $t7 ==> (q != "class" && seen(q)) || (seen("class") && (q == "memory.high" || q == "memory.swap.max"))
+//@ assert[C18] in (*plugin).CreateContainer at "if len(unified) == 0": forall q string :: q in $t8 ==> effIn(ann, q, ctr.Name)
+
+// Annotations addressed to another container c2 are different map keys than the two consulted for c (same prefix).
+//@ lemma[C18] OtherContainerKeysDistinct(q string, c string, c2 string): c2 != c ==> keyC(q, c2) != keyC(q, c) && keyC(q, c2) != keyP(q)
